@@ -206,7 +206,7 @@ def _loop_spec(engine, fr, s):
     return engine.cfg.loops.get((fr.func.qualname, ordinal)) or engine.cfg.loops.get((fr.func.qualname.split(".")[-1], ordinal)) or LoopSpec(), ordinal
 
 
-def _havoc_locals(engine, st, fr, names, keep):
+def _havoc_locals(engine, st, fr, names, keep, local_types=None):
     for nme in names:
         if nme in keep:
             continue
@@ -215,6 +215,12 @@ def _havoc_locals(engine, st, fr, names, keep):
             continue
         old = st.envs[eid][nme]
         ty = old.ty if isinstance(old, Z) else None
+        if local_types and nme in local_types:
+            ty = local_types[nme]
+            t = fresh("L_" + nme, Val)
+            st.assume(engine.ty_formula(st, t, ty))
+            st.envs[eid][nme] = engine.typed(st, t, ty, assume=False)
+            continue
         if isinstance(old, bool):
             st.envs[eid][nme] = Z(fresh("L_" + nme, B), "bool")
         elif isinstance(old, int):
@@ -272,6 +278,8 @@ def body_effects(engine, nodes):
                 if nm and nm not in seen:
                     seen.add(nm)
                     for f in by_name.get(nm, []):
+                        if f.qualname in engine.cfg.contracts and not getattr(engine.cfg.contracts[f.qualname], "inline", False):
+                            continue        # effect given by its call-site contract
                         work.append(f.node)
                     # constructor calls run __init__
                     if nm in engine.repo.classes and not engine.repo.classes[nm].builtin:
@@ -331,6 +339,7 @@ def _havoc_heap_for_loop(engine, st, spec, body=None, fr=None):
     for name in names:
         a = st.arr(name)
         new = fresh("LH_" + name.strip("$"), a.sort())
+        st.epochs[new.decl().name()] = st.n_alloc
         for p in sorted(st.private | st.frozen):
             if p in mutated_local and name in ("$len", "$at", "$mem", "$dval"):
                 continue
@@ -366,7 +375,7 @@ def loop_while(engine, st, fr, s):
     ctx = {"entry": st.copy(), "kind": "while"}
     _check_inv(engine, st, fr, spec, ctx, "init", ordinal)
     # arbitrary iteration
-    _havoc_locals(engine, st, fr, assigned, spec.keep_locals)
+    _havoc_locals(engine, st, fr, assigned, spec.keep_locals, spec.local_types)
     _havoc_heap_for_loop(engine, st, spec, [s], fr)
     st.trace.append(Event("loop-head", site=engine.site(fr, s), extra={"ordinal": ordinal}))
     _assume_inv(engine, st, fr, spec, ctx)
@@ -491,7 +500,7 @@ def _for_symbolic(engine, st, fr, s, it):
 
     # (a) arbitrary iteration i
     st_b = entry.copy()
-    _havoc_locals(engine, st_b, fr, assigned, spec.keep_locals)
+    _havoc_locals(engine, st_b, fr, assigned, spec.keep_locals, spec.local_types)
     _havoc_heap_for_loop(engine, st_b, spec, s.body, fr)
     i = fresh("it_idx", I)
     st_b.assume(z3.And(i >= 0, i < n))
@@ -531,7 +540,7 @@ def _for_symbolic(engine, st, fr, s, it):
 
     # (b) exit after all n iterations
     st_e = entry
-    _havoc_locals(engine, st_e, fr, assigned, spec.keep_locals)
+    _havoc_locals(engine, st_e, fr, assigned, spec.keep_locals, spec.local_types)
     _havoc_heap_for_loop(engine, st_e, spec, s.body, fr)
     st_e.put("$len", oid, n)
     if src["kind"] == "seq":
